@@ -17,7 +17,7 @@ namespace sim {
 struct Action {
     enum Kind {
         run, publish, subscribe, unsubscribe, cancel, disconnect, destroy, signal,
-        broker_publish, net_kill, spurious_ack, hostile_bytes, set_silent, custom, reauth, replace, broker_disconnect, reconfigure,
+        broker_publish, net_kill, spurious_ack, hostile_bytes, set_silent, custom, reauth, replace, broker_disconnect, reconfigure, receive,
         s_open, s_read, s_write, s_shutdown, s_cancel, s_close,    // autoconnect_stream level (Scenario::stream_mode)
         s_trigger                                                   // reconnect_op on a probe owner (Scenario::stream_mode == 2)
     } kind = run;
